@@ -602,6 +602,14 @@ def free_cases(rng, tier):
     for i, (T, lens, burst) in enumerate([(4, "@1:4000:%d" % rng.randint(1, 9999), 64), (2, "@1:200:%d" % rng.randint(1, 9999), 0),
                                           (8, "@10:4000:%d" % rng.randint(1, 9999), 16)][: 2 if tier == "quick" else 3]):
         cs.append(vlib.Case("free%d" % i, "free threads=%d n=%d lens=%s roll=%d burst=%d quiesce=1" % (T, n, lens, rng.choice([2000000, 7000000]), burst), [], "free-running"))
+    # stop() right after the last append, no waiting for the back-end: the drain after the loop has to write the tail
+    cs.append(vlib.Case("free_nq", "free threads=3 n=%d lens=@1:3000:%d roll=5000000 burst=32 quiesce=0" % (n, rng.randint(1, 9999)), [], "free-running"))
+    if tier != "quick":
+        # long runs through many real 4 MB buffers (several hundred MB), one of them stopped without quiescing
+        cs.append(vlib.Case("free_big0", "free threads=6 n=40000 lens=@2000:4000:%d roll=50000000 burst=0 quiesce=1" % rng.randint(1, 9999), [], "free-running"))
+        # a slowed-down back-end (30 ms per write): the front-ends overrun it, the valve must announce what it drops
+        cs.append(vlib.Case("free_overload", "free threads=8 n=15000 lens=4000 roll=100000000 burst=0 quiesce=1 slow=30000", [], "free-running"))
+        cs.append(vlib.Case("free_big1", "free threads=4 n=60000 lens=@500:4000:%d roll=20000000 burst=128 quiesce=0" % rng.randint(1, 9999), [], "free-running"))
     # several threads appending to ONE thread-safe LogFile (LogFile::append under its own mutex), rolling often
     for i, (T, lens, roll, every) in enumerate([(4, "@1:300:%d" % rng.randint(1, 9999), 40000, 7), (3, "@10:4000:%d" % rng.randint(1, 9999), 300000, 1024),
                                                 (8, "@1:64:%d" % rng.randint(1, 9999), 9000, 1)][: 2 if tier == "quick" else 3]):
@@ -701,7 +709,7 @@ def run(chk, replay=None):
                 cases.append(c)
         cases += f8_family()
         cases += drop_cases()
-        nseq, nasync, nheavy = (400, 60, 3) if tier == "quick" else (6000, 600, 24)
+        nseq, nasync, nheavy = (400, 60, 3) if tier == "quick" else (20000, 2000, 40)
         cases += [gen_seq(rng, "s%d" % i, big=(i % 25 == 24)) for i in range(nseq)]
         cases += [gen_async(rng, "a%d" % i) for i in range(nasync)]
         cases += [gen_async(rng, "h%d" % i, heavy=True) for i in range(nheavy)]
@@ -718,6 +726,7 @@ def run(chk, replay=None):
     t3 = time.time()
 
     corr_bad, oracle_bad, known_bad = [], [], []
+    free_stats = {"cases": 0, "records": 0, "bytes_in_files": 0, "files": 0, "announcements": 0, "asynclogging_4MB_buffers_filled_at_least": 0}
     sigs = set()
     hist = {}
     for c in cases:
@@ -769,6 +778,15 @@ def run(chk, replay=None):
             ev.add("short-write")
         if c.tag == "free-running":
             ev.add("free")
+            fb = sum(int(l.split()[2]) for l in li if l.startswith("f "))
+            fr = free_stats
+            fr["cases"] += 1
+            fr["bytes_in_files"] += fb
+            fr["files"] += sum(1 for l in li if l.startswith("f "))
+            fr["announcements"] += sum(1 for l in li if l.startswith("e "))
+            fr["records"] += int(hdr_get(c.header, "threads", "1")) * int(hdr_get(c.header, "n", "0"))
+            if c.header.split()[0] == "free":
+                fr["asynclogging_4MB_buffers_filled_at_least"] += fb // 4000000
         if ev:
             sigs.add((tuple(op.split()[0] for op in c.ops), tuple(sorted(ev)), nfiles, tuple(li[-3:-2])))
         if len(chk.cov["samples"]) < 5 and ev and len(c.ops) <= 14 and c.tag.endswith("random"):
@@ -776,6 +794,7 @@ def run(chk, replay=None):
     shutil.rmtree(scratch, ignore_errors=True)
     chk.cov["distinct_nontrivial"] = len(sigs)
     chk.cov["generator_histogram"] = hist
+    chk.cov["free_running"] = free_stats
     chk.cov["phase_s"] = {"proof": round(pr["wall_s"], 1), "impl": round(t2 - t1, 1), "model": round(t3 - t2, 1)}
     chk.cov["rule"] = ("corpus + stop() at every back-end phase + overload cases at the valve boundary + the fit test at its boundary (len == avail) + "
                        "several threads on one thread-safe LogFile (free-running, file oracle) + random sequential LogFile cases "
@@ -831,7 +850,8 @@ def run(chk, replay=None):
                 return r is not None
             small = vlib.Case(c.cid, c.header, vlib.ddmin(c.ops, fails, max_tests=60))
         p = first_replay(small, msg, "oracle_%s.case" % c.cid)
-        chk.violation(p, "C16 fails on the implementation: %s (%d failing cases)" % (msg, len(oracle_bad)))
+        also = "" if pr["ok"] else "; proof obligation(s) no longer checking on this tree: %s" % (pr["broken"],)
+        chk.violation(p, "C16 fails on the implementation: %s (%d failing cases)%s" % (msg, len(oracle_bad), also))
         reported = True
     if known_bad:
         kf = [k for k in vlib.known_findings() if k["property"] == PROP]
